@@ -339,7 +339,7 @@ class Interp:
         return paths
 
 
-def module_globals(repo: Repo, modname: str, opts: dict | None = None) -> dict:
+def module_globals(repo: Repo, modname: str, opts: dict | None = None, effects: list | None = None) -> dict:
     """Abstractly evaluates the top-level statements of a module (assignments, loops building tables) and returns the final
     values of its globals.  Import / def / class statements bind references only."""
     m = repo.module(modname)
@@ -368,4 +368,6 @@ def module_globals(repo: Repo, modname: str, opts: dict | None = None) -> dict:
             continue
     for k, c in fr.locals.items():
         out[k] = c.value
+    if effects is not None:
+        effects.extend(run.effects)
     return out
